@@ -94,7 +94,9 @@ FlipImgY(I) == LET F(r, c) == I.px[r][I.w + 1 - c] IN MkImg(I.h, I.w, F)
 Flip1(S, a) == CASE a = "x" -> [k \in 1..NT(S) |-> FlipImgX(S[k])]
                  [] a = "y" -> [k \in 1..NT(S) |-> FlipImgY(S[k])]
                  [] a = "z" -> [k \in 1..NT(S) |-> S[NT(S) + 1 - k]]
-FlipS(S, axes) == IF Len(axes) = 1 THEN Flip1(S, axes[1]) ELSE Flip1(Flip1(S, axes[1]), axes[2])
+\* a list of axes is the concatenation of the single flips, in list order (repeats allowed: they cancel in pairs)
+RECURSIVE FlipS(_, _)
+FlipS(S, axes) == IF Len(axes) = 0 THEN S ELSE FlipS(Flip1(S, Head(axes)), Tail(axes))
 
 \* central window of w2 x h2 pixels (0 = keep that size).  The centre convention of the package is floor(N / 2): the
 \* centre of an axis of length N is the 0-based index N \div 2 (so for the map boxes and the masks), and the central
@@ -123,7 +125,9 @@ BinImg(I, f) == LET F(r, c) == BlockSum(I, f, r, c) \div (f * f) IN MkImg(I.h \d
 BinS(S, f) == [k \in 1..NT(S) |-> BinImg(S[k], f)]
 
 -----------------------------------------------------------------------------
-\* calls.  o = [name, io, oo, src, outf, ...parameters]
+\* calls.  o = [name, io, oo, src, outf, af, ...parameters].  af is the storage form of the array that is handed in
+\* (src = "array"): "c" C-ordered, "f" Fortran-ordered, "view" a non-contiguous view of a larger array, "ro" read-only.
+\* It is a parameter of the call and does not enter the result (the array denotes the same stack in every form).
 IdxSet(o) == {i + (1 - o.base) : i \in ToSet(o.idx)}        \* the 1-based positions meant by the index list
 
 Valid(o, S) ==
@@ -131,7 +135,7 @@ Valid(o, S) ==
       [] o.name = "remove" -> IdxSet(o) # {} /\ IdxSet(o) \subseteq 1..NT(S) /\ IdxSet(o) # 1..NT(S)
                               /\ Cardinality(IdxSet(o)) = Len(o.idx)
       [] o.name = "split"  -> NT(S) >= 2
-      [] o.name = "flip"   -> Len(o.axes) \in 1..2 /\ ToSet(o.axes) \subseteq {"x", "y", "z"}
+      [] o.name = "flip"   -> Len(o.axes) \in 1..3 /\ ToSet(o.axes) \subseteq {"x", "y", "z"}
       [] o.name = "crop"   -> CropOK(S, o.w, o.h)
       [] o.name = "bin"    -> BinOK(S, o.f)
 
@@ -162,15 +166,18 @@ Do(o) == /\ Valid(o, stack)
 Bij(n) == {p \in [1..n -> 1..n] : \A i, j \in 1..n : i # j => p[i] # p[j]}
 SetSeqs(n) == {R \in SUBSET (1..n) : R # {} /\ R # 1..n}
 AscSeq(R) == [k \in 1..Cardinality(R) |-> CHOOSE i \in R : Cardinality({j \in R : j < i}) = k - 1]
-AxesChoices == {<<"x">>, <<"y">>, <<"z">>, <<"x", "y">>, <<"z", "x">>, <<"y", "y">>}
-WithCfg(o, c) == o @@ [io |-> c.io, oo |-> c.oo, src |-> c.src, outf |-> c.outf]
+\* every axis list of length 1..2; every list of length 3 (repeats included) on the smallest stacks only
+Ax == {"x", "y", "z"}
+AxesChoices(S) == {<<a>> : a \in Ax} \cup {<<a, b>> : a, b \in Ax}
+                  \cup (IF NT(S) = 2 /\ HT(S) * WD(S) <= 6 THEN {<<a, b, c>> : a, b, c \in Ax} ELSE {})
+WithCfg(o, c) == o @@ [io |-> c.io, oo |-> c.oo, src |-> c.src, outf |-> c.outf, af |-> c.af]
 EnumOps(S) ==
     LET n == NT(S)
         core == {[name |-> "sort", ranks |-> p] : p \in Bij(n)}
                 \cup {[name |-> "remove", idx |-> [k \in 1..Cardinality(R) |-> AscSeq(R)[k] - (1 - b)], base |-> b] :
                         R \in SetSeqs(n), b \in {0, 1}}
                 \cup {[name |-> "split", keep |-> kp] : kp \in {"even", "odd"}}
-                \cup {[name |-> "flip", axes |-> ax] : ax \in AxesChoices}
+                \cup {[name |-> "flip", axes |-> ax] : ax \in AxesChoices(S)}
                 \cup {[name |-> "crop", w |-> w2, h |-> h2] : w2 \in 0..WD(S), h2 \in 0..HT(S)}
                 \cup {[name |-> "bin", f |-> f] : f \in 1..3}
     IN  {WithCfg(o, c) : o \in core, c \in Cfgs}
@@ -226,6 +233,9 @@ C15_Interleave ==
     [][Is("split") => Len(parts') = 2 /\ Interleave(parts'[1], parts'[2]) = stack]_vars
 
 C15_FlipInvolution == \A a \in {"x", "y", "z"} : Flip1(Flip1(stack, a), a) = stack
+
+\* flips along different axes commute, so an axis list means the same in any order
+C15_FlipsCommute == \A a, b \in {"x", "y", "z"} : FlipS(stack, <<a, b>>) = FlipS(stack, <<b, a>>)
 
 \* the documented meaning of the axes (IMOD clip flipx / flipy / flipz)
 C15_FlipAxis ==
